@@ -63,6 +63,7 @@ op("py-process-model-mutates-input", ["C04"], PY, r"(        G_t = self\.process
 op("py-upd-S-no-noise", ["C05", "C07"], PY, r"np\.matmul\(H_t, np\.matmul\(covariance\.data, H_t\.transpose\(\)\)\) \+ Q_t\.data", "np.matmul(H_t, np.matmul(covariance.data, H_t.transpose()))")
 op("py-upd-K-uses-S", ["C05", "C07"], PY, r"covariance\.data, np\.matmul\(H_t\.transpose\(\), S_inv\)", "covariance.data, np.matmul(H_t.transpose(), S_t)")
 op("py-upd-innovation-sign", ["C05", "C06", "C07"], PY, r"sensor_reading\.data - expected_reading\.data", "expected_reading.data - sensor_reading.data")
+op("py-innovation-cov-unsymmetrised", ["C09"], PY, r"self\.sensor_prediction_uncertainty\[sensor_key\] = S_t = \(\n\s*S_t \+ S_t\.transpose\(\)\n\s*\) / 2\.0", "self.sensor_prediction_uncertainty[sensor_key] = S_t")
 op("py-upd-cov-plus", ["C05", "C07"], PY, r"next_covariance = covariance\.data - np\.matmul\(", "next_covariance = covariance.data + np.matmul(")
 op("py-upd-H-not-transposed", ["C05"], PY, r"np\.matmul\(covariance\.data, H_t\.transpose\(\)\)\) \+ Q_t", "np.matmul(covariance.data, H_t)) + Q_t")
 op("py-Q-vector-class", ["C05"], PY, r"self\.ReadingCovariance = common\.named_covariance\(", "self.ReadingCovariance = common.named_vector(")
